@@ -144,6 +144,9 @@ func cmdCheck(args []string) int {
 	os.MkdirAll(work, 0o755)
 	dir := prepDir(work, id)
 	eng, err := LoadEngine(dir, []string{"./..."})
+	if err == nil {
+		err = eng.RegisterAxioms()
+	}
 	replayDir := filepath.Join(outDir(), "replays", id)
 	os.RemoveAll(replayDir)
 	os.MkdirAll(replayDir, 0o755)
@@ -326,6 +329,16 @@ func writeEvidence(id string, opts checkOpts, eng *Engine, reports []*FuncReport
 			samples = append(samples, map[string]interface{}{"obligation": r.Fn + "::" + r.Name, "class": r.Class, "status": r.Status, "instances": r.Instances, "text": r.Note})
 		}
 	}
+	// slowest obligations (stability margin against the per-obligation timeout)
+	sorted := append([]*OblResult{}, results...)
+	sort.Slice(sorted, func(i, j int) bool { return sorted[i].Secs > sorted[j].Secs })
+	var slowest []map[string]interface{}
+	for i, r := range sorted {
+		if i >= 8 {
+			break
+		}
+		slowest = append(slowest, map[string]interface{}{"obligation": r.Fn + "::" + r.Name, "solver_seconds_all_instances": r.Secs, "instances": r.Instances})
+	}
 	var fns []map[string]interface{}
 	uncontracted := map[string]bool{}
 	for _, rep := range reports {
@@ -373,6 +386,7 @@ func writeEvidence(id string, opts checkOpts, eng *Engine, reports []*FuncReport
 		"single_backend":           single,
 		"samples":                  samples,
 		"bounded":                  []string{},
+		"slowest_obligations":      slowest,
 		"not_decided_by_proof":     meta.NotProved,
 	}
 	if eng != nil {
